@@ -4,6 +4,7 @@ import (
 	"fmt"
 	"math/rand"
 	"sort"
+	"strings"
 
 	"verif/harness/internal/nm"
 )
@@ -19,8 +20,8 @@ func (i Item) String() string { return i.Kind + ":" + i.Key }
 var (
 	annKeys   = []string{"a0", "a1", "a2", "a3", "io.k/x", "b-c"}
 	envKeys   = []string{"E0", "E1", "E2", "E3", "PATH", "E_5"}
-	mountDsts = []string{"/m0", "/m1", "/m2", "/m0/sub", "/m1/a/b", "/data", "/m2/x", "/mn3/", "/mn4//y", "/mn5/./z"} // the last three are not in filepath.Clean form (spelled identically by all plugins)
-	devPaths  = []string{"/dev/d0", "/dev/d1", "/dev/d2", "/dev/d3", "/dev/sub/../d4"}
+	mountDsts = []string{"/m0", "/m1", "/m2", "/m0/sub", "/m1/a/b", "/data", "/m2/x", "/mn3/", "/mn4//y", "/mn5/./z", "/mn3", "/data/"} // "/mn3/", "/mn4//y", "/mn5/./z", "/data/" are not in filepath.Clean form; "/mn3" and "/mn3/", "/data" and "/data/" are two spellings of one path and are DIFFERENT items (destinations are compared as written)
+	devPaths  = []string{"/dev/d0", "/dev/d1", "/dev/d2", "/dev/d3", "/dev/sub/../d4", "/dev/d4"} // the last two spell one path in two ways: different items
 	cdiNames  = []string{"vendor.com/dev=c0", "vendor.com/dev=c1", "vendor.com/dev=c2", "x.org/y=z"}
 	rlTypes   = []string{"RLIMIT_NOFILE", "RLIMIT_NPROC", "RLIMIT_CORE", "RLIMIT_AS"}
 	hpSizes   = []string{"2MB", "1GB", "64KB"}
@@ -321,11 +322,28 @@ func (g *G) applyAction(a *nm.Adjust, act Action, tag int) {
 			a.Ann = append(a.Ann, nm.KV{K: mark(it.Key), V: ""})
 		}
 		if set {
-			a.Ann = append(a.Ann, nm.KV{K: it.Key, V: fmt.Sprintf("p%d-%s", tag, it.Key)})
+			v := fmt.Sprintf("p%d-%s", tag, it.Key)
+			// echo: a fifth of the time the plugin sets the annotation to exactly the value it already has
+			if g.echoC != nil && g.r.Intn(5) == 0 {
+				for _, cur := range g.echoC.Ann {
+					if cur.K == it.Key {
+						v = cur.V
+					}
+				}
+			}
+			a.Ann = append(a.Ann, nm.KV{K: it.Key, V: v})
 		}
 		sort.Slice(a.Ann, func(i, j int) bool { return a.Ann[i].K < a.Ann[j].K })
 	case "env":
 		s := nm.KV{K: it.Key, V: fmt.Sprintf("p%d", tag) + []string{"", "=q", " r"}[g.r.Intn(3)]}
+		// echo: a fifth of the time the plugin sets the variable to exactly the KEY=VALUE the container has
+		if g.echoC != nil && g.r.Intn(5) == 0 {
+			for _, cur := range g.echoC.Env {
+				if strings.HasPrefix(cur, it.Key+"=") {
+					s.V = cur[len(it.Key)+1:]
+				}
+			}
+		}
 		m := nm.KV{K: mark(it.Key)}
 		if act.Op == OpSetRemove {
 			a.Env = append(a.Env, s, m)
